@@ -540,6 +540,10 @@ struct Scope {
     // parameters are bound).  Scopes above it on the stack are the blocks of
     // that activation; scopes below it belong to its callers.
     bool is_call_frame = false;
+    // true for the scope the event loop pushes for one step of an async task:
+    // the only scope that is saved when the task is suspended and restored
+    // when it is resumed.
+    bool is_task_frame = false;
 
     void clear() {
         variables.clear();
@@ -548,6 +552,7 @@ struct Scope {
         scope_id.clear();
         statement_positions.reset();
         is_call_frame = false;
+        is_task_frame = false;
     }
 };
 
@@ -1234,6 +1239,17 @@ class Interpreter : public EvaluatorInterface {
     // v0.12.0: auto_yieldタスク実行制御
     void set_auto_yield_mode(bool enabled) { is_in_auto_yield_task_ = enabled; }
     bool is_in_auto_yield_mode() const { return is_in_auto_yield_task_; }
+    // A loop suspends the running task after an iteration only when it is a
+    // loop of the task's own body, i.e. when the scope it runs in is the
+    // task's frame: that scope is what a suspension saves and what the
+    // re-executed statement finds again.  A loop of a function (method,
+    // lambda, constructor, ...) called from the task runs in the callee's
+    // scope, which is gone once the exception has left the call; such a loop
+    // runs to completion like in any other caller.
+    bool loop_auto_yields() const {
+        return is_in_auto_yield_task_ && !scope_stack.empty() &&
+               scope_stack.back().is_task_frame;
+    }
 
     // v0.12.0: 非同期タスク管理
     void register_async_task(int task_id, const AsyncTask &task) {
